@@ -76,7 +76,7 @@ def run(ctx):
     ctx.build_drv()
     quick = ctx.tier == "quick"
     seeds = [ctx.seed] if quick else [ctx.seed, ctx.seed + 1000, ctx.seed + 2000]
-    n_rt, n_fuzz, n_types = (180, 4000, 900) if quick else (1500, 60000, 8000)
+    n_rt, n_fuzz, n_types = (180, 4000, 900) if quick else (4000, 200000, 20000)
     if ctx.build_hx():
         meta0 = {}
         corpus = os.path.join(vlib.VERIF, "corpus", "C14", "cases.txt")
